@@ -180,6 +180,7 @@ fn wake_waiters(waiters: &mut LinkedList<RecvWaitQueueEntry>) {
 }
 
 /// Internal state of the state broadcast channel
+#[cfg_attr(futures_intrusive_verif, derive(Debug))]
 struct ChannelState<T> {
     /// Whether the channel was actively closed
     is_closed: bool,
@@ -453,6 +454,7 @@ mod if_alloc {
         #[cfg(not(futures_intrusive_verif))]
         use core::sync::atomic::{AtomicUsize, Ordering};
 
+        #[cfg_attr(futures_intrusive_verif, derive(Debug))]
         struct GenericStateBroadcastChannelSharedState<MutexType, T>
         where
             MutexType: RawMutex,
@@ -785,6 +787,11 @@ mod if_alloc {
                     &super::super::verif_hooks::describe,
                 )
             }
+
+            /// `Debug` rendering of the wait node of this future
+            pub fn verif_node_debug(&self) -> alloc::string::String {
+                alloc::format!("{:?}", self.wait_node)
+            }
         }
 
         /// A reference to the state of a shared channel which is not counted
@@ -829,6 +836,19 @@ mod if_alloc {
                 snap.scalars
                     .push(self.inner.receivers.load(Ordering::SeqCst) as u64);
                 snap
+            }
+
+            /// `Debug` rendering of the shared state and of the channel state
+            pub fn verif_debug(&self) -> alloc::string::String
+            where
+                MutexType: core::fmt::Debug,
+                T: core::fmt::Debug,
+            {
+                alloc::format!(
+                    "{:?} {}",
+                    *self.inner,
+                    self.inner.channel.verif_debug()
+                )
             }
         }
 
@@ -924,12 +944,26 @@ mod verif_hooks {
             snap_list(&state.waiters, &mut snap, &describe);
             snap
         }
+
+        /// `Debug` rendering of the complete internal state (all fields,
+        /// including ones this hook does not know about)
+        pub fn verif_debug(&self) -> alloc::string::String
+        where
+            T: core::fmt::Debug,
+        {
+            alloc::format!("{:?}", *self.inner.lock())
+        }
     }
 
     impl<'a, MutexType, T: Clone> StateReceiveFuture<'a, MutexType, T> {
         /// Describes the wait node of this future
         pub fn verif_node(&self) -> NodeSnap {
             snap_list_node(&self.wait_node, &describe)
+        }
+
+        /// `Debug` rendering of the wait node of this future
+        pub fn verif_node_debug(&self) -> alloc::string::String {
+            alloc::format!("{:?}", self.wait_node)
         }
     }
 }
